@@ -67,6 +67,26 @@ pub enum Int {
     NzU64(std::num::NonZero<u64>),
     NzIsize(std::num::NonZero<isize>),
     NzUsize(std::num::NonZero<usize>),
+    I128(i128),
+    U128(u128),
+    NzI128(std::num::NonZero<i128>),
+    NzU128(std::num::NonZero<u128>),
+    F32(F32Bits),
+    F64(F64Bits),
+}
+
+/// Floats are given by their bit pattern (decimal) so that every NaN payload / signed zero is addressable.
+#[derive(Clone, Copy, Debug, PartialEq, Eq)]
+pub struct F32Bits(pub u32);
+#[derive(Clone, Copy, Debug, PartialEq, Eq)]
+pub struct F64Bits(pub u64);
+impl std::str::FromStr for F32Bits {
+    type Err = std::num::ParseIntError;
+    fn from_str(s: &str) -> Result<Self, Self::Err> { s.parse().map(F32Bits) }
+}
+impl std::str::FromStr for F64Bits {
+    type Err = std::num::ParseIntError;
+    fn from_str(s: &str) -> Result<Self, Self::Err> { s.parse().map(F64Bits) }
 }
 
 #[derive(Clone, Debug)]
@@ -301,6 +321,12 @@ fn parse_int(ty: &str, dec: &str, line: usize) -> Result<Int, String> {
         "nz_u64" => p!(NzU64),
         "nz_isize" => p!(NzIsize),
         "nz_usize" => p!(NzUsize),
+        "i128" => p!(I128),
+        "u128" => p!(U128),
+        "nz_i128" => p!(NzI128),
+        "nz_u128" => p!(NzU128),
+        "f32" => p!(F32),
+        "f64" => p!(F64),
         _ => Err(format!("line {line}: unknown integer type `{ty}`")),
     }
 }
